@@ -446,4 +446,52 @@ theorem C17_restore_maintenance_removes_nothing_partial (cfg : Cfg) (o : Oracle)
 -- non-vacuity: the F11 configuration has neither TTL nor TTI, and its restored cache is over capacity
 example : cfgLru3.ttl = none ∧ cfgLru3.tti = none := by decide
 
+/-! ### 7. reachable states: the distinct-keys hypothesis is discharged
+
+`WF` (distinct keys) is an invariant of every history of a fresh cache, for every policy
+(`Fv.Cache.WF_run`), and the introspection flush preserves it (`flush_wf`).  So for every state a
+program can actually reach, the `hwf` hypothesis of the iteration theorems holds. -/
+
+/-- the flushed state of a reachable state has distinct keys -/
+theorem flush_nodup_of_reachable (cfg : Cfg) (ops : PolicyOps P) (p0 : P) (t0 : Nat) (o : Oracle) (s : State P)
+    (hr : Reachable cfg ops p0 t0 s) : ((s.flush cfg ops o).map.map (·.1)).Nodup :=
+  (flush_wf cfg ops o s (WF_reachable hr)).1
+
+/-- `C17_iter_each_live_once` for every reachable state: the batching iterator yields every live
+    entry exactly once with its current value, expired ones omitted -/
+theorem C17_iter_each_live_once_reachable (cfg : Cfg) (ops : PolicyOps P) (p0 : P) (t0 : Nat) (o : Oracle)
+    (s : State P) (batch : Nat) (hr : Reachable cfg ops p0 t0 s) (hn : 0 < cfg.nshards) :
+    ((s.iterAll cfg ops o batch none).2.map (·.1)).Nodup ∧
+    ∀ k v, (k, v) ∈ (s.iterAll cfg ops o batch none).2 ↔
+      ∃ e, (k, e) ∈ (s.flush cfg ops o).map ∧ e.vid = v ∧
+        e.isExpired (s.flush cfg ops o).now cfg.tti = false :=
+  C17_iter_each_live_once cfg ops o s batch hn (flush_nodup_of_reachable cfg ops p0 t0 o s hr)
+
+/-- `C17_snapshot_iter_exact` for every reachable state -/
+theorem C17_snapshot_iter_exact_reachable (cfg : Cfg) (ops : PolicyOps P) (p0 : P) (t0 : Nat) (o : Oracle)
+    (s : State P) (hr : Reachable cfg ops p0 t0 s) :
+    (s.iterSnapshotAll cfg ops o none).2 =
+      liveOf (s.flush cfg ops o).map (s.flush cfg ops o).now cfg.tti
+        ((List.range cfg.nshards).flatMap (fun i => (s.flush cfg ops o).shardKeys cfg o.ord i)) ∧
+    (s.iterSnapshotAll cfg ops o none).1.now = (s.flush cfg ops o).now :=
+  C17_snapshot_iter_exact cfg ops o s (flush_nodup_of_reachable cfg ops p0 t0 o s hr)
+
+/-- `C17_snapshot_iter_each_live_once` for every reachable state -/
+theorem C17_snapshot_iter_each_live_once_reachable (cfg : Cfg) (ops : PolicyOps P) (p0 : P) (t0 : Nat) (o : Oracle)
+    (s : State P) (hr : Reachable cfg ops p0 t0 s) (hn : 0 < cfg.nshards) :
+    ((s.iterSnapshotAll cfg ops o none).2.map (·.1)).Nodup ∧
+    ∀ k v, (k, v) ∈ (s.iterSnapshotAll cfg ops o none).2 ↔
+      ∃ e, (k, e) ∈ (s.flush cfg ops o).map ∧ e.vid = v ∧
+        e.isExpired (s.flush cfg ops o).now cfg.tti = false :=
+  C17_snapshot_iter_each_live_once cfg ops o s hn (flush_nodup_of_reachable cfg ops p0 t0 o s hr)
+
+-- non-vacuity: a reachable state with content (overwrite, removal, maintenance in its history), 4 shards
+def exReach : State Unit :=
+  (run exCfg nullOps () (State.fresh exCfg () 7)
+    [(.insert false 0 10 1, {}), (.insert false 8 18 1, {}), (.insert false 1 11 1, {}), (.insert false 8 19 1, {}),
+     (.remove 0, {}), (.runMaintenance, {})]).1
+
+example : Reachable exCfg nullOps () 7 exReach ∧ 0 < exCfg.nshards := ⟨⟨_, rfl⟩, by decide⟩
+example : (exReach.iterAll exCfg nullOps { ord := [8, 1] } 2 none).2 = [(8, 19), (1, 11)] := by decide
+
 end Fv.Props.C17
